@@ -44,6 +44,11 @@ type Lists struct {
 	A       ListSpec `json:"a"`
 	B       ListSpec `json:"b"`
 	Into    string   `json:"into"` // fresh | over-a
+	// UseA: before B goes through, the caller uses the list it decoded from A -
+	// every element edited in place through the exported pointers (scripts
+	// appended to with the builder methods, amounts, vout, an output added).
+	UseA     bool    `json:"use_a,omitempty"`
+	UseBytes pbt.Hex `json:"use_bytes,omitempty"`
 }
 
 func (s ListSpec) utxo(k int) UModel {
@@ -181,6 +186,23 @@ func checkLists(ctx *pbt.Ctx, c Lists) error {
 	if err = unmarshal(a); err != nil {
 		return fmt.Errorf("list A (%s %s) does not unmarshal: %v (JSON %s)", c.Kind, c.Dialect, err, clip(a.js))
 	}
+	var undo undoList
+	defer undo.run()
+	if c.UseA && c.Into != "over-a" {
+		st := HStep{B: c.UseBytes, U64: uint64(len(c.UseBytes))}
+		if a.utxos != nil {
+			for _, g := range *a.utxos {
+				useUTXO(g, st, &undo)
+			}
+		}
+		if a.txs != nil {
+			for _, g := range *a.txs {
+				useTx(g, st, &undo)
+			}
+		}
+		a.live = false
+		ctx.Label("a-used-in-place-before-b")
+	}
 	// second call
 	if b.js, err = marshal(b.spec); err != nil {
 		ctx.Label("marshal_error:" + c.Kind + "." + c.Dialect)
@@ -273,6 +295,9 @@ func genLists(t *rapid.T) Lists {
 		Dialect: rapid.SampledFrom([]string{"lib", "node"}).Draw(t, "dialect"),
 		Into:    rapid.SampledFrom([]string{"fresh", "fresh", "over-a"}).Draw(t, "into")}
 	c.A, c.B = genListSpec(t, c.Kind, "a"), genListSpec(t, c.Kind, "b")
+	if rapid.IntRange(0, 2).Draw(t, "use_a") == 0 {
+		c.UseA, c.UseBytes = true, rapid.SliceOfN(rapid.Byte(), 0, 3).Draw(t, "use_bytes")
+	}
 	return c
 }
 
